@@ -76,6 +76,25 @@ pub struct KnowledgeGraphSnapshot {
     >,
 }
 
+/// Append session facts to a relation's tuples under set semantics.
+///
+/// Relations are sets: a session fact equal to a stored fact (or to an earlier
+/// session fact of the same query) must not become a second input row, otherwise
+/// aggregates such as `count` or `sum` see it twice.
+fn extend_as_set(base: &mut Vec<Tuple>, extra: Vec<Tuple>) {
+    let fresh: Vec<Tuple> = {
+        let present: HashSet<&Tuple> = base.iter().collect();
+        let mut fresh: Vec<Tuple> = Vec::with_capacity(extra.len());
+        for tuple in extra {
+            if !present.contains(&tuple) && !fresh.contains(&tuple) {
+                fresh.push(tuple);
+            }
+        }
+        fresh
+    };
+    base.extend(fresh);
+}
+
 impl KnowledgeGraphSnapshot {
     /// Create a new snapshot from knowledge graph data
     pub fn new(input_tuples: HashMap<String, Vec<Tuple>>, rules: Vec<Rule>) -> Self {
@@ -333,7 +352,7 @@ impl KnowledgeGraphSnapshot {
             if let Some(extra) = needs_mutation.remove(rel) {
                 // This relation needs session facts: clone and extend
                 let mut cloned = tuples.clone();
-                cloned.extend(extra);
+                extend_as_set(&mut cloned, extra);
                 isolated_tuples.insert(rel.clone(), cloned);
             } else {
                 // No session facts for this relation: share the existing vec
@@ -342,7 +361,9 @@ impl KnowledgeGraphSnapshot {
         }
         // Add relations that only exist in session facts (not in base data)
         for (rel, tuples) in needs_mutation {
-            isolated_tuples.insert(rel, tuples);
+            let mut fresh = Vec::with_capacity(tuples.len());
+            extend_as_set(&mut fresh, tuples);
+            isolated_tuples.insert(rel, fresh);
         }
 
         // Set the isolated tuples on the engine (needed for pipeline)
@@ -393,14 +414,16 @@ impl KnowledgeGraphSnapshot {
         for (rel, tuples) in self.input_tuples.as_ref() {
             if let Some(extra) = needs_mutation.remove(rel) {
                 let mut cloned = tuples.clone();
-                cloned.extend(extra);
+                extend_as_set(&mut cloned, extra);
                 isolated_tuples.insert(rel.clone(), cloned);
             } else {
                 isolated_tuples.insert(rel.clone(), tuples.clone());
             }
         }
         for (rel, tuples) in needs_mutation {
-            isolated_tuples.insert(rel, tuples);
+            let mut fresh = Vec::with_capacity(tuples.len());
+            extend_as_set(&mut fresh, tuples);
+            isolated_tuples.insert(rel, fresh);
         }
 
         let shared = Arc::new(isolated_tuples);
